@@ -3,11 +3,15 @@ package main
 // extraDriver is added to the batch driver's package main (batch.Build extraDriverFiles): error-class ops.
 //
 //	FE <key> <hex>  FastRead: ok | err:required:<field> | err:other | panic
-//	RE <key> <hex>  Read    : ok | err:required:<field> | err:other | panic
+//	RE <key> <hex>  Read    : ok | err:required:<field> | err:other | panic | runaway
+//	RG <key> <hex>  Read (as op R) over a guarded transport: ok <dump> | err | panic | runaway
+//	                (apache thrift 0.13's Skip ignores read errors inside struct/map loops: on a corrupted input with
+//	                a huge element count it spins for minutes at EOF; the guard gives up after 4096 failed reads)
 //	SK <ttype> <hex>  gopkg thrift.Binary.Skip: ok <n> | err   (n may exceed the input length: that is the point)
 const extraDriver = `package main
 
 import (
+	"reflect"
 	"strconv"
 	"strings"
 
@@ -30,7 +34,72 @@ func c10ErrClass(err error) string {
 	return "err:other"
 }
 
+// c10Guard counts failed reads of the transport and gives up (panic "runaway") after 4096 of them.
+type c10Guard struct {
+	*thrift.TMemoryBuffer
+	fails int
+}
+
+type c10Runaway struct{}
+
+func (g *c10Guard) note(err error) {
+	if err != nil {
+		g.fails++
+		if g.fails > 4096 {
+			panic(c10Runaway{})
+		}
+	}
+}
+
+func (g *c10Guard) Read(p []byte) (int, error) {
+	n, err := g.TMemoryBuffer.Read(p)
+	g.note(err)
+	return n, err
+}
+
+func (g *c10Guard) ReadByte() (byte, error) {
+	b, err := g.TMemoryBuffer.ReadByte()
+	g.note(err)
+	return b, err
+}
+
+// c10Read runs the standard generated Read over the guarded transport.
+func c10Read(args []string) (e *entry, x interface{}, err error, status string) {
+	defer func() {
+		if r := recover(); r != nil {
+			if _, ok := r.(c10Runaway); ok {
+				status = "runaway"
+				return
+			}
+			status = "panic"
+		}
+	}()
+	e = lookup(args[0])
+	b := hexIn(args[1])
+	x = e.ctor()
+	r, ok := x.(interface {
+		Read(thrift.TProtocol) error
+	})
+	if !ok {
+		return e, x, nil, "nomethod"
+	}
+	buf := thrift.NewTMemoryBuffer()
+	buf.Write(b)
+	err = r.Read(thrift.NewTBinaryProtocol(&c10Guard{TMemoryBuffer: buf}, true, true))
+	return e, x, err, ""
+}
+
 func init() {
+	extraOps["RG"] = func(args []string) string {
+		e, x, err, status := c10Read(args)
+		if status != "" {
+			return status
+		}
+		if err != nil {
+			return "err"
+		}
+		return "ok " + e.dumpObj(reflect.ValueOf(x))
+	}
 	extraOps["FE"] = func(args []string) string {
 		_, _, _, err, ok := fastRead(args)
 		if !ok {
@@ -39,18 +108,11 @@ func init() {
 		return c10ErrClass(err)
 	}
 	extraOps["RE"] = func(args []string) string {
-		e := lookup(args[0])
-		b := hexIn(args[1])
-		x := e.ctor()
-		r, ok := x.(interface {
-			Read(thrift.TProtocol) error
-		})
-		if !ok {
-			return "nomethod"
+		_, _, err, status := c10Read(args)
+		if status != "" {
+			return status
 		}
-		buf := thrift.NewTMemoryBuffer()
-		buf.Write(b)
-		return c10ErrClass(r.Read(thrift.NewTBinaryProtocol(buf, true, true)))
+		return c10ErrClass(err)
 	}
 	extraOps["SK"] = func(args []string) string {
 		t, _ := strconv.Atoi(args[0])
